@@ -104,6 +104,18 @@ def gen_cases(ctx):
         # the first job of a process decides the process-wide shard count: one process per first-pool size
         c.jobs.append(P.Job('%s_t%d_%s_%d_%d_%d' % (c.name, ti, v.name, a, b, c3), c, v, inp, steps=steps, params=params,
                             meta={'scenario': 'pools', 'process': 'first%d' % a, 'triple': (a, b, c3)}))
+    # lattice-heavy corpus families constructed in a 1- or 2-thread pool and run in a big one (whatever the construction pool fixed -
+    # striped mutexes, shard vectors - is then shared by more workers than it was sized for)
+    ti = len(triples)
+    for c in corpus_cases:
+        if not any(r.is_lat for r in c.ref_prog.rels):
+            continue
+        for (a, b, c3) in ((1, 8, 16), (1, 16, 8), (2, 16, 16)):
+            v = rng.choice([x for x in c.variants if x.par])
+            rows = c.mk(c.rng)
+            ti += 1
+            c.jobs.append(P.Job('%s_t%d_%s_%d_%d_%d' % (c.name, ti, v.name, a, b, c3), c, v, rows, steps=[('pool', b), ('run',), ('pool', c3), ('run',)],
+                                params={'cpool': a, 'pool': b, 'rep': 3}, meta={'scenario': 'pools', 'process': 'first%d' % a, 'triple': (a, b, c3)}))
     return cases
 
 
